@@ -166,6 +166,8 @@ MESHES = {
     "tri1": (3, [(0, 1, 2)], 1), "tri2": (4, [(0, 1, 2), (0, 2, 3)], 1), "tri3": (5, [(0, 1, 2), (0, 2, 3), (0, 3, 4)], 1),
     "fan4": (5, [(0, 1, 2), (0, 2, 3), (0, 3, 4), (0, 4, 1)], 1),
     "sphere": (4, [(1, 2, 3), (0, 3, 2), (0, 1, 3), (0, 2, 1)], 2),
+    # a disk plus a vertex no face refers to (index 2, not the last one): V - E + F = 2
+    "fan4+stray": (6, [(0, 1, 3), (0, 3, 4), (0, 4, 5), (0, 5, 1)], 2),
     "annulus": (8, [f for i in range(4) for f in ((i, (i + 1) % 4, 4 + (i + 1) % 4), (i, 4 + (i + 1) % 4, 4 + i))], 0),
     # 3x3 torus with the two triangles of one quad removed: one border loop but Euler characteristic -1
     "punctured-torus": (9, [f for i in range(3) for j in range(3) if (i, j) != (0, 0)
@@ -359,7 +361,7 @@ def obligations(tier):
     return [
         Ob("square-placement-e2", square_e2, covers=COVERS, note="kernelsmt: square border placement for every border length"),
         Ob("circle-placement", circle_e1, covers=COVERS, note="circle border placement, n in [3,12]"),
-        Ob("gate", gate(disks + ["sphere", "annulus", "punctured-torus"]), covers=COVERS, split=3, note="Euler-characteristic gate"),
+        Ob("gate", gate(disks + ["sphere", "annulus", "punctured-torus", "fan4+stray"]), covers=COVERS, split=3, note="Euler-characteristic gate"),
         Ob("custom-storage", custom_storage, covers=COVERS, split=3, note="custom border positions reach the border vertices they are given for"),
         Ob("system-matrix-tri2", c08.laplacians("tri2"), covers=COVERS + ["mouette.operators.laplacian_op:laplacian"],
            note="the matrix handed to the linear solve is the uniform / cotangent Laplacian (free symbolic cotangents; shared with C08)"),
